@@ -9,6 +9,20 @@ def gen(rng, tier):
     def add(a, b, cls):
         cases.append(Case("cteq %s %s" % (hexs(a), hexs(b)), cls, len(a) + len(b) > 0, spec="spec.eq %s %s" % (hexs(a), hexs(b))))
     add(b"", b"", "empty/empty")
+    # many differing bytes whose differences SUM to a multiple of 2^32 (an accumulator that adds instead of OR-ing wraps to zero): 2^25 x 0x80
+    for la, fa, lb, fb in [(2 ** 25, 0x00, 2 ** 25, 0x80), (2 ** 24, 0xFF, 2 ** 24, 0x00), (2 ** 25, 0x80, 2 ** 25, 0x80)]:
+        cases.append(Case("cteqfill %d %d %d %d" % (la, fa, lb, fb), "fill-difference sum 2^32", True, spec="spec.eqfill %d %d %d %d" % (la, fa, lb, fb)))
+    # two differences that cancel under addition / folding of wider words: the same bit flipped at distance 1, 2, 4, 8; complementary values
+    for la in [8, 16, 24, 33]:
+        a = bytes(rng.randrange(256) for _ in range(la))
+        for i in range(0, la):
+            for dist in (1, 2, 3, 4, 7, 8):
+                j = i + dist
+                if j >= la: continue
+                for xi, xj in ((0x80, 0x80), (0x01, 0xFF), (0x80, 0x7F), (0xFF, 0x01)):
+                    b = bytearray(a); b[i] ^= xi; b[j] ^= xj
+                    if (i + dist * 7 + xi) % 3 == 0 or la <= 16:
+                        add(a, bytes(b), "two-differences dist=%d" % dist)
     # lengths that differ by a multiple of 2^32 (all-zero contents on untouched zero pages): a length difference folded into 32 bits vanishes
     for la, lb in [(2 ** 32, 0), (2 ** 32 + 5, 5)]:
         cases.append(Case("cteqbig %d %d" % (la, lb), "len-differ by 2^32 zero-content", True, spec="spec.eqbig %d %d" % (la, lb)))
